@@ -26,6 +26,26 @@ theorem findByte_get {c : Nat} {s : Str} {k : Nat} (h : findByte c s = some k) :
   obtain ⟨pre, post, rfl, _, rfl⟩ := Ids.find_eq_some h
   simp
 
+/-! ### `str` slices at ASCII bytes -/
+
+theorem strTo_at {a : Str} {c : Nat} {b : Str} (hc : c < 128) :
+    strTo (a ++ c :: b) a.length = some a := by
+  simp [strTo, Ids.isBoundary_at a c b hc]
+
+theorem strFrom_at {a : Str} {c : Nat} {b : Str} (hc : c < 128) :
+    strFrom (a ++ c :: b) a.length = some (c :: b) := by
+  simp [strFrom, Ids.isBoundary_at a c b hc]
+
+theorem strFrom_after {a : Str} {c : Nat} {b : Str} (hs : Ids.Sep (a ++ c :: b)) (hc : c < 128) :
+    strFrom (a ++ c :: b) (a.length + 1) = some b := by
+  have hd : List.drop (a.length + 1) (a ++ c :: b) = b := by
+    have : a ++ c :: b = (a ++ [c]) ++ b := by simp
+    rw [this]; exact List.drop_left' (by simp)
+  simp [strFrom, Ids.isBoundary_after hs hc, hd]
+
+theorem strFrom_zero (s : Str) : strFrom s 0 = some s := by
+  simp [strFrom, Ids.isBoundary_zero]
+
 /-! ### `findP` -/
 
 theorem findP_eq_some {p : Nat → Bool} {s : Str} {i : Nat} (h : findP p s = some i) :
